@@ -156,6 +156,14 @@ def check_channel_file(hist, specs, t, seed, scalers_expected=None, opaque=False
         return 1, [('raised', 'eager read raised %s: %s' % (r[1], r[2]))]
     ech = [c for c in r[1]['g'].channels() if c.path != B][0]
     target = ech.path
+    # integer indices on a channel object nothing else has been asked of yet: the errors of C04 hold for scaled channels as well
+    L0 = len(ech)
+    for i in (L0, L0 + 1, -L0 - 1, -L0 - 2, -2 * L0, -2 * L0 - 1):
+        ri = H.guarded(ech.__getitem__, i)
+        n += 1
+        if not (ri[0] == 'raised' and ri[1] == 'IndexError'):
+            probs.append(('index-bounds', 'index %d on a fresh eager channel of %d scaled values: %r instead of IndexError' % (i, L0, ri[:2])))
+            break
     raw_before = _rawbytes(ech)
     r = H.guarded(lambda: ech[:])
     n += 1
@@ -308,6 +316,15 @@ def _worker(item):
             n, probs = check_channel_file(hist, [{'type': name.split('/')[0]}], 'opaque', seed, opaque=True)
             record({'part': 'opaque', 'raw': name.split('/')[-1], 'case': ci, 'name': name, 'seed': seed}, [{'type': name.split('/')[0]}], n, probs)
     elif kind == 'daqmx':
+        # raw scalers need not occupy the leading scale indices: ids 0 and 2, a typed scale 1 between them
+        for specs in ([None, dict(LIN, src=0), None, {'type': 'Add', 'left': 1, 'right': 2}],
+                      [None, dict(LIN, src=0), None, {'type': 'Subtract', 'left': 2, 'right': 1}],
+                      [None, dict(POLY3, src=0), None]):
+            props = R.props_for(specs)
+            enc = F.daqmx_enc(3, [(3, 0, 0, 0, 0), (5, 0, 2, 0, 2)], [8])
+            hist = [G.seg([(A, enc, props), (B, F.daqmx_enc(3, [(1, 0, 7, 0, 0)], [8]), [F._uprop('NI_Number_Of_Scales', 1)])], chunks=2)]
+            n_, probs_ = check_channel_file(hist, specs, 'daqmx', seed, scalers_expected=[0, 2])
+            record({'part': 'daqmx-gap', 'raw': 'daqmx', 'specs': specs, 'seed': seed}, specs, n_, probs_)
         for specs in payload:
             # without NI_Number_Of_Scales the count is the highest defined index + 1; the raw scalers themselves define no
             # NI_Scale[i] properties, so the defined indices start above 0
@@ -478,6 +495,11 @@ def replay(case):
     elif case['part'] == 'placement':
         hist, expect = placement_file(tuple(case['combo']), case.get('late', False), ODD if case.get('odd_name') else None)
         n, probs = check_channel_file(hist, expect, 'Int16', case.get('seed', 0))
+    elif case['part'] == 'daqmx-gap':
+        specs = case['specs']
+        enc = F.daqmx_enc(3, [(3, 0, 0, 0, 0), (5, 0, 2, 0, 2)], [8])
+        hist = [G.seg([(A, enc, R.props_for(specs)), (B, F.daqmx_enc(3, [(1, 0, 7, 0, 0)], [8]), [F._uprop('NI_Number_Of_Scales', 1)])], chunks=2)]
+        n, probs = check_channel_file(hist, specs, 'daqmx', case.get('seed', 0), scalers_expected=[0, 2])
     else:
         specs = case['specs']
         enc = F.daqmx_enc(3, [(3, 0, 0, 0, 0), (5, 0, 2, 0, 1)], [8])
